@@ -104,3 +104,29 @@ def validate(records, module, name, batch=1500, env_key='TRACE_FILE', cfg=None,
 def log(msg):
     sys.stderr.write('[vf %s] %s\n' % (time.strftime('%H:%M:%S'), msg))
     sys.stderr.flush()
+
+
+# ------------------------------------------- worn process vs. fresh interpreter
+def _rows_in_this_process(case):
+    from . import record
+    os.environ[config.HOOK_GUARD] = '1'
+    obs, res, ev, tabs = record.execute(case)
+    return record.law_rows(case, res, tabs)
+
+
+def fresh_vs_worn(cases, label='fresh-interpreter'):
+    """EQ law records comparing each case run in a fresh interpreter (nothing else was called there) with the same
+    case run in long-lived worker processes after many other calls (C10: repeating a call in another process)."""
+    cases = list(cases)
+    if not cases:
+        return []
+    with mp.get_context('spawn').Pool(config.NCPU, maxtasksperchild=1) as pool:
+        fresh = pool.map(_rows_in_this_process, cases, chunksize=1)
+    worn = pmap(_rows_in_this_process, cases)
+    laws = []
+    for c, fr, wr in zip(cases, fresh, worn):
+        if fr is None or wr is None:
+            continue
+        laws.append({'law': 'EQ', 'prop': 'C10', 'A': fr, 'B': wr, 't': c['t'], 'label': label,
+                     'meas': c['meas'], 'op': c['op'], '_case': c})
+    return laws
